@@ -181,7 +181,7 @@ Section Final.
     file_only arts -> rec arts bp o cwd = Ok d -> enter_base root fuel cwd bp = Ok base ->
     lookup k d = Some h ->
     exists u f c, In u arts /\ name_of (o_lstrip o) u f = k /\
-      excl (start_path u) = false /\
+      excl_start excl (start_path u) = false /\
       (f = start_path u \/
        exists ns, ns <> [] /\ f = fold_left child ns (start_path u) /\
                   forall j, (0 < j <= length ns)%nat -> excl (fold_left child (firstn j ns) (start_path u)) = false) /\
